@@ -6,7 +6,12 @@ func H_has() {
 	o := Op(verifU32("o"))
 	h := Op(verifU32("h"))
 	got := o.Has(h)
-	verifAssert(got == (uint32(o)&uint32(h) != 0), "Op.Has(h) is true exactly when the sets intersect")
+	// spec, bit by bit: some operation is in both sets
+	inter := false
+	for i := uint(0); i < 32; i++ {
+		inter = verifOr(inter, verifAnd(uint32(o)>>i&1 == 1, uint32(h)>>i&1 == 1))
+	}
+	verifAssert(got == inter, "Op.Has(h) is true exactly when the sets intersect")
 	e := Event{Name: "x", Op: o}
 	verifAssert(e.Has(h) == got, "Event.Has agrees with Op.Has")
 	verifReach("has")
@@ -47,4 +52,30 @@ func H_opstring() {
 	} else {
 		verifReach("opstring-some")
 	}
+}
+
+var verifNames = [...]string{"", "a b", "q\"uote", "line\nbreak", "tab\there", "bad\xff\xfeutf8", "nul\x00byte", "ünï©ode/文件",
+	"0123456789012345678901234567890123456789012345678901234567890123456789012345678901234567890123456789012345678901234567890123456789012345678901234567890123456789012345678901234567890123456789012345678901234567890123456789012345678901234567890123456789012345"}
+
+func verifPad13(s string) string {
+	for len(s) < 13 {
+		s += " "
+	}
+	return s
+}
+
+func H_eventstring() {
+	o := verifU32("o")
+	name := verifNames[verifChoose("name", len(verifNames))]
+	from := verifNames[verifChoose("from", len(verifNames))]
+	e := Event{Name: name, Op: Op(o), renamedFrom: from}
+	got := e.String()
+	want := verifPad13(refOpString(o)) + " " + strconvQuote(name)
+	if from != "" {
+		want += " ← " + strconvQuote(from)
+		verifReach("eventstring-renamed")
+	} else {
+		verifReach("eventstring-plain")
+	}
+	verifAssert(got == want, "Event.String = padded Op text, quoted name, and the quoted old name exactly when there is one")
 }
